@@ -80,7 +80,7 @@ def c09(chk):
         o["obs"][1]["pos"] = 128
     def c_re(o):
         o["obs"][2]["re_sync"][50] ^= 1
-    ev2 = first_event(trace, lambda o: o["ev"] == "HdrEnc")
+    ev2 = first_event(trace, lambda o: o["ev"] == "HdrEnc" and "bytes" in o["obs"][0])
     def c_bytes(o):
         o["obs"][0]["bytes"][100] ^= 1
     ev3 = first_event(trace, lambda o: o["ev"] == "Coords")
@@ -463,8 +463,8 @@ def c06(chk):
         # how often the leaf size is doubled is the implementation's business: reported, not required
         chk.infos.append("the tiny-start-size cases did not make the library double its leaf size (policy differs from the pinned tree)")
     need_stat(chk, "writedirs_single_root_length_beyond_65536", 1)
-    need_stat(chk, "writedirs_exactly_on_budget", 2)
-    need_stat(chk, "writedirs_one_byte_over_budget", 2)
+    need_stat(chk, "writedirs_exactly_on_budget", 4)
+    need_stat(chk, "writedirs_one_byte_over_budget", 4)
     chk.validate("Trace_Archive", trace, "writedirs", scope=scope_of("C06"), parallel=8, timeout=3000)
     def is_spill(o):
         return o["ev"] == "WriteDirs" and o["res"] == "ok" and len(o.get("leaves", [])) >= 2
